@@ -16,6 +16,10 @@ def cfgs_quick():
     """(bufsz, sanitize, args, nshards). bound = preemption bound (context switches at blocking points are free,
     CHESS-style); delay=1 = delay bounding (every departure from the canonical scheduler costs one)."""
     L = []
+    # malformed decrypt bodies (a validly tagged file need not come from encryption): empty body, partial trailing block
+    for ln in (0, 9, 41, 73):
+        L.append((2, "none", dict(T=1, len=ln, enc=0, rawdec=1, bound=3), 1))
+        L.append((2, "none", dict(T=2, len=ln, enc=0, rawdec=1, bound=2 if ln < 41 else 1), 1))
     for enc in (1, 0):
         for ln in (0, 15, 16, 31, 32, 33, 64, 65):
             L.append((2, "none", dict(T=1, len=ln, enc=enc, bound=3), 1))
@@ -181,6 +185,8 @@ def run(pid, tier, replay=None):
         bad = [(a, rc, err) for (a, rc, err) in agg.failed if rc != -999]
         if bad:
             cannot = "harness process failed: rc=%s %s ... %s" % (bad[0][1], " ".join(bad[0][0][1:6]), bad[0][2][-300:].replace("\n", " "))
+    if agg.flags.get("hooks_seen", True) is False:
+        cannot = "no WENCRY_VERIF_POINT event reached the harness: the guarded hooks in multi_buffergroup.cpp are gone or no longer compiled in, the ownership monitor would be blind"
     viol_all = agg.viol
     mine = [v for v in viol_all if v.get("prop") == pid]
     others = sorted(set("%s/%s" % (v.get("prop"), v.get("key")) for v in viol_all if v.get("prop") != pid))
